@@ -633,4 +633,48 @@ theorem deadlock_free_core {idx : Nat → Nat} {s : St} (hI : Inv idx s)
     · have := hlt k' hk'
       rw [hwk] at hle; simp [wantIdx, hp] at hle
       omega
+
+theorem hier_init (idx : Nat → Nat) (progs : List (List (List Instr))) (hp : ∀ p ∈ progs, Hier idx p = true) :
+    ∀ (j : Nat) (c : Caller), (init progs).cs[j]? = some c → hierC idx c := by
+  intro j c hj
+  have := List.mem_of_getElem? hj
+  simp [init] at this
+  obtain ⟨p, hpm, rfl⟩ := this
+  have h := hp p hpm
+  simp [Hier] at h
+  simp [hierC, mkCaller, segOk]
+  exact h
+
+theorem hier_step {idx : Nat → Nat} {s s' : St} {i : Nat} {ev : Ev} (hI : Inv idx s)
+    (hH : ∀ (j : Nat) (c : Caller), s.cs[j]? = some c → hierC idx c)
+    (h : step idx s i = some (ev, s')) : ∀ (j : Nat) (c : Caller), s'.cs[j]? = some c → hierC idx c := by
+  obtain ⟨c, a', ch', c', hi, hc, rfl⟩ := step_iff.mp h
+  have hL := stepC_sound idx s.arr s.cache c c' ev a' ch' hc (hI.book i c hi) (hI.pc i c hi) (hI.stack i c hi)
+  intro j d hj
+  by_cases hji : j = i
+  · subst hji
+    have hlen : j < s.cs.length := by
+      rcases Nat.lt_or_ge j s.cs.length with h | h
+      · exact h
+      · simp [List.getElem?_eq_none h] at hi
+    simp [List.getElem?_set_self hlen] at hj
+    subst hj
+    exact lstep_hier hL (hH j c hi)
+  · simp only [] at hj
+    rw [List.getElem?_set_ne (Ne.symm hji)] at hj
+    exact hH j d hj
+
+theorem hier_reachable {idx : Nat → Nat} {progs : List (List (List Instr))} {s : St}
+    (hp : ∀ p ∈ progs, Hier idx p = true) (h : Reachable idx progs s) :
+    ∀ (j : Nat) (c : Caller), s.cs[j]? = some c → hierC idx c := by
+  induction h with
+  | init => exact hier_init idx progs hp
+  | step hr hs ih => exact hier_step (inv_reachable hr) ih hs
+
+/-- every non-spin local step decreases the caller's measure; a spin changes nothing -/
+theorem lstep_measure {idx arr cache c ev a' ch' c'} (h : LStep idx arr cache c ev a' ch' c') :
+    (ev ≠ .spin → c'.measure < c.measure) ∧ (ev = .spin → a' = arr ∧ ch' = cache ∧ c' = c) := by
+  cases h
+  all_goals (try rcases toUnwind_eq _ with hu | hu <;> rw [hu])
+  all_goals (simp [Caller.measure, Pc.rank, restWeight]; try omega)
 end Coba.C19
